@@ -36,7 +36,17 @@ func runC11(c *fw.Ctx, idx int) fw.Result {
 	r := fw.NewRng(c.Seed, "C11", idx)
 	format := []string{"gb", "gff"}[r.Intn(2)]
 	opts := gen.AnnoOpts{MaxFeats: 4, AllowUnnamed: true, AllowSlip: true, SplitCodons: true, SamConflicts: true, Rotate: true, NoStop: true}
-	ac := makeAnnoCase(r, c.Thorough(), format, "sam", gen.DefaultVarProfile(), 6, opts)
+	vp := gen.DefaultVarProfile()
+	nqMax := 6
+	if idx%300 == 5 {
+		// a genome wider than 64 KiB: the pairwise rows are single lines longer than a default
+		// scanner buffer
+		opts.GenomeLen = r.Range(65600, 70000)
+		vp.PSub, vp.PAmbig = 0.0005, 0.0002
+		nqMax = 2
+		res.Count("cases_with_genome_wider_than_64KiB", 1)
+	}
+	ac := makeAnnoCase(r, c.Thorough(), format, "sam", vp, nqMax, opts)
 	L := len(ac.an.Ref)
 	appendSNP := r.Chance(0.5)
 	s, e := -1, -1
